@@ -575,8 +575,10 @@ Definition run (w : world) (po : option params) (hs : list handler) : world * re
 (** * Sessions: consecutive runs against the same agent.  Each run has its own
     connection (fresh request counter, open), its own behaviour / fault /
     signer scripts; the identity store, the agent's memory of signatures and
-    the entropy counters persist. *)
+    the entropy counters persist.  The registered-key directory is an input of
+    each run (files are replaced, added and removed between runs). *)
 Record run_in := mkRunIn {
+  ri_dir : str -> option file;      (* the registered-key directory as it is during this run *)
   ri_params : option params;
   ri_handlers : list handler;
   ri_beh : agent_beh;
@@ -586,8 +588,8 @@ Record run_in := mkRunIn {
 Definition start_run (s : state) : state :=
   mkSt (s_store s) (s_sigs s) 0%nat false (s_cdraws s) (s_kdraws s) 0%nat.
 
-Definition run_env (dir : str -> option file) (chal keypair : nat -> N) (ri : run_in) : env :=
-  mkEnv dir chal keypair (ri_beh ri) (ri_afault ri) (ri_signer ri).
+Definition run_env (chal keypair : nat -> N) (ri : run_in) : env :=
+  mkEnv (ri_dir ri) chal keypair (ri_beh ri) (ri_afault ri) (ri_signer ri).
 
 Record run_obs := mkObs {
   o_res : option gkind;        (* None = Run returned nil *)
@@ -597,18 +599,18 @@ Record run_obs := mkObs {
 Definition obs_res (r : res unit) : option gkind :=
   match result_of r with Ok _ => None | Err k => Some k end.
 
-Definition run_once (dir : str -> option file) (chal keypair : nat -> N) (ri : run_in) (s : state)
+Definition run_once (chal keypair : nat -> N) (ri : run_in) (s : state)
   : state * run_obs :=
-  let '(s', ev, r) := run_body (run_env dir chal keypair ri) (ri_params ri) (ri_handlers ri) (start_run s) in
+  let '(s', ev, r) := run_body (run_env chal keypair ri) (ri_params ri) (ri_handlers ri) (start_run s) in
   (s', mkObs (obs_res r) ev (s_store s')).
 
-Fixpoint session (dir : str -> option file) (chal keypair : nat -> N) (rs : list run_in) (s : state)
+Fixpoint session (chal keypair : nat -> N) (rs : list run_in) (s : state)
   : state * list run_obs :=
   match rs with
   | [] => (s, [])
   | ri :: rest =>
-      let '(s1, o) := run_once dir chal keypair ri s in
-      let '(s2, os) := session dir chal keypair rest s1 in
+      let '(s1, o) := run_once chal keypair ri s in
+      let '(s2, os) := session chal keypair rest s1 in
       (s2, o :: os)
   end.
 
